@@ -584,7 +584,11 @@ func secOps(c *hx.Ctx) {
 
 type lenResolver map[int]core.Object
 
+// asked: the object numbers the parser handed to its resolver, in order (key -1)
+var askedLog []int
+
 func (l lenResolver) ResolveReference(ref core.IndirectRef) (core.Object, error) {
+	askedLog = append(askedLog, ref.Number)
 	if o, ok := l[ref.Number]; ok {
 		return o, nil
 	}
@@ -685,6 +689,7 @@ func indOps(c *hx.Ctx) {
 		out := "err"
 		var ind *core.IndirectObject
 		var err error
+		askedLog = nil
 		if p := hx.Safe(func() {
 			ps := core.NewParser(bytes.NewReader([]byte(text)))
 			ps.SetReferenceResolver(res)
@@ -709,6 +714,16 @@ func indOps(c *hx.Ctx) {
 			l = strings.Join(lens, ";")
 		}
 		c.Op(fmt.Sprintf("c04.ind %s %s", l, hx.HexS(text)), out)
+		// which object the parser asks its resolver for (at most one, whatever follows)
+		ask := "-"
+		if len(askedLog) > 0 {
+			ask = fmt.Sprint(askedLog[0])
+			c.Count("ind-asks-resolver")
+		}
+		c.Check("C04/parser-asks-resolver-more-than-once", len(askedLog) <= 1, map[string]string{"data": hx.HexS(text)}, func() string {
+			return fmt.Sprintf("ParseIndirectObject called its resolver %d times: %v", len(askedLog), askedLog)
+		})
+		c.Op("c04.ask "+hx.HexS(text), ask)
 		c.Case("ind"+text+l, out != "err")
 	}
 }
